@@ -102,6 +102,12 @@ def run(ctx) -> None:
     check_bounds(ctx)
     check_members(ctx)
     ctx.guard(check_objective_before_removal, ctx)
+    ctx.guard(check_derived_names, ctx)
+    # two models that list the same reaction objects: edits through one never reach the other's solver (shared with C02)
+    from . import c02
+
+    ctx.rule("C02.readonly", "T8: the right-hand model of merge is only read: what is taken over is a copy (shared with C02)", floor=1)
+    c02.check_readonly(ctx)
     check_populate(ctx)
     check_clone(ctx)
 
@@ -680,6 +686,41 @@ def check_bounds(ctx) -> None:
 
 
 # ---------------------------------------------------------------------------------------- members
+def check_derived_names(ctx) -> None:
+    """The names under which an object finds its solver objects are computed from its current identifier on every
+    read: a getter that stores what it computed keeps answering with the old name after an identifier change made on a
+    path that does not know about the store (the model-less rename in Object.id, unpickling, copying) - the reaction
+    then resolves to another reaction's variable, or its variables are created twice."""
+    getters = [("cobra.core.reaction", "Reaction", "reverse_id"), ("cobra.core.reaction", "Reaction", "forward_variable"), ("cobra.core.reaction", "Reaction", "reverse_variable"),
+               ("cobra.core.reaction", "Reaction", "flux_expression"), ("cobra.core.metabolite", "Metabolite", "constraint")]
+    for mod, cname, name in getters:
+        ci = ctx.prog.cls(cname)
+        ms = [m for m in ci.methods.get(name, []) if getattr(m, "prop_kind", None) in ("getter", None)]
+        if not ms:
+            raise AnalysisError(f"C01.pair: {cname}.{name} not found")
+        fn = ms[0]
+        sn = fn.self_name or "self"
+        stores = []
+        for n in walk_local(fn.node):
+            if isinstance(n, (ast.Assign, ast.AugAssign, ast.AnnAssign)):
+                tgts = n.targets if isinstance(n, ast.Assign) else [n.target]
+                for t in tgts:
+                    base = t
+                    while isinstance(base, (ast.Subscript, ast.Attribute)) and not (isinstance(base, ast.Attribute) and isinstance(base.value, ast.Name) and base.value.id == sn):
+                        base = base.value
+                    if isinstance(base, ast.Attribute) and isinstance(base.value, ast.Name) and base.value.id == sn:
+                        stores.append(n)
+            elif isinstance(n, ast.Call) and isinstance(n.func, ast.Attribute) and n.func.attr in ("setdefault", "__setattr__", "update") and norm(n.func.value).startswith(f"{sn}."):
+                stores.append(n)
+            elif isinstance(n, ast.Call) and isinstance(n.func, ast.Name) and n.func.id == "setattr" and n.args and norm(n.args[0]) == sn:
+                stores.append(n)
+        cached = any(norm(d).split(".")[-1].split("(")[0] in ("cached_property", "lru_cache", "cache") for d in fn.node.decorator_list)
+        if stores or cached:
+            ctx.bad("C01.pair", fn, stores[0] if stores else fn.node, f"{cname}.{name} stores what it computes: after an identifier change on a path that does not reset the store (renaming an object that is not in a model, unpickling, copying) the object keeps looking for its solver objects under the old name - two reactions then resolve to the same variable, or adding the object creates its variables twice")
+        else:
+            ctx.ok("C01.pair", fn, name, f"{cname}.{name} is computed from the current state on every read")
+
+
 def check_objective_before_removal(ctx) -> None:
     """Model.remove_reactions: on every path on which the variables of a reaction with a non-zero objective
     coefficient are taken out of the solver, the reaction has been taken out of the objective before - with or without
